@@ -165,6 +165,19 @@ class PropertyRun:
     # ------------------------------------------------------------------ Kani
     def run_kani_units(self, names):
         units = [K.KaniUnit(os.path.join(VERIF, 'contracts', 'kani', f'{n}.toml')) for n in names]
+        # one Kani phase at a time per build cache: cargo maps every scratch copy of the workspace to
+        # the same cached units, so concurrent checks must not interleave their builds
+        import fcntl
+        os.makedirs(os.path.dirname(K.TARGET_DIR), exist_ok=True)
+        lock = open(K.TARGET_DIR + '.lock', 'w')
+        fcntl.flock(lock, fcntl.LOCK_EX)
+        try:
+            self._run_kani_units_locked(units)
+        finally:
+            fcntl.flock(lock, fcntl.LOCK_UN)
+            lock.close()
+
+    def _run_kani_units_locked(self, units):
         # group by whether ttl_cache patch is needed (changes the dependency graph)
         for patch in (False, True):
             group = [u for u in units if u.patch_ttl_cache == patch]
@@ -249,6 +262,9 @@ class PropertyRun:
         if not hs:
             return None
         sc = K.Scratch(REPO, f'{self.pid}-pair')
+        import fcntl
+        lock = open(K.TARGET_DIR + '.lock', 'w')
+        fcntl.flock(lock, fcntl.LOCK_EX)
         try:
             sc.create(patch_ttl_cache=u.patch_ttl_cache)
             sc.apply_unit(u)
@@ -259,6 +275,8 @@ class PropertyRun:
             self.notes.append(f'paired search for {v["obligation"]} failed: {e}')
         finally:
             sc.remove()
+            fcntl.flock(lock, fcntl.LOCK_UN)
+            lock.close()
         return None
 
     # ------------------------------------------------------------------ main
